@@ -7,6 +7,9 @@ import (
 	"fmt"
 	"math/big"
 	"net/netip"
+	"os"
+	"path/filepath"
+	"strconv"
 	"strings"
 
 	"github.com/IrineSistiana/mosdns/v5/pkg/matcher/netlist"
@@ -21,6 +24,58 @@ type pfx13 struct {
 	v4   bool
 	addr [16]byte // v4: last 4 bytes
 	bits int
+	// how the rule is written in a text line (no influence on what it means):
+	host  bool // a full-length prefix written as a single address, without "/len"
+	style int  // spelling of a 16-byte address, see text()
+}
+
+// text is the rule as a line of a list file / an `ips` entry. An IPv4-mapped
+// address is spelled ::ffff:a.b.c.d, expanded, upper case, with hexadecimal
+// groups or with explicit zero groups; the length of a 16-byte form counts
+// bits of the 128-bit address.
+func (p pfx13) text() string {
+	a := p.netip().Addr()
+	s := a.String()
+	if !p.v4 {
+		switch p.style {
+		case 1:
+			s = a.StringExpanded()
+		case 2:
+			s = strings.ToUpper(s)
+		case 3:
+			if a.Is4In6() {
+				s = fmt.Sprintf("::ffff:%x:%x", uint(p.addr[12])<<8|uint(p.addr[13]), uint(p.addr[14])<<8|uint(p.addr[15]))
+			}
+		case 4:
+			if a.Is4In6() {
+				s = "0:0:0:0:0:ffff:" + a.Unmap().String()
+			}
+		}
+	}
+	if p.host && p.bits == a.BitLen() {
+		return s
+	}
+	return s + "/" + strconv.Itoa(p.bits)
+}
+
+// lineOp is the rule as the model driver reads a text line: `4:<hex>` /
+// `6:<hex>` without "/len" is a single-address line (the model's loadLine
+// chooses the length), otherwise a CIDR line.
+func (p pfx13) lineOp() string {
+	if p.host && p.bits == p.netip().Addr().BitLen() {
+		return strings.SplitN(p.op(), "/", 2)[0]
+	}
+	return p.op()
+}
+
+func (p pfx13) mapped() pfx13 {
+	if !p.v4 {
+		return p
+	}
+	var m [16]byte
+	m[10], m[11] = 0xff, 0xff
+	copy(m[12:], p.addr[12:])
+	return pfx13{v4: false, addr: m, bits: p.bits + 96, host: p.host, style: p.style}
 }
 
 func (p pfx13) netip() netip.Prefix {
@@ -89,6 +144,13 @@ func from128(x *big.Int) (a [16]byte, ok bool) {
 }
 
 func (r *Run) genPfx13(pool []pfx13) pfx13 {
+	p := r.genPfx13base(pool)
+	p.host = r.Rng.Intn(2) == 0
+	p.style = r.Rng.Intn(6) // 0 and 5: canonical
+	return p
+}
+
+func (r *Run) genPfx13base(pool []pfx13) pfx13 {
 	// derive from an existing prefix sometimes: nested, adjacent, duplicate, same base other length
 	if len(pool) > 0 && r.Rng.Intn(2) == 0 {
 		q := pool[r.Rng.Intn(len(pool))]
@@ -137,13 +199,7 @@ func (r *Run) genPfx13(pool []pfx13) pfx13 {
 			}
 			return q
 		default: // the v4 <-> mapped twin
-			if q.v4 {
-				var m [16]byte
-				m[10], m[11] = 0xff, 0xff
-				copy(m[12:], q.addr[12:])
-				return pfx13{v4: false, addr: m, bits: q.bits + 96}
-			}
-			return q
+			return q.mapped()
 		}
 	}
 	var p pfx13
@@ -157,6 +213,12 @@ func (r *Run) genPfx13(pool []pfx13) pfx13 {
 		if r.Rng.Intn(3) == 0 {
 			p.bits = r.Rng.Intn(33)
 		}
+		if r.Rng.Intn(4) == 0 {
+			p.bits = 32 // single address
+		}
+		if r.Rng.Intn(4) == 0 {
+			return p.mapped() // written in IPv4-mapped form from the start
+		}
 	} else {
 		r.Rng.Read(p.addr[:])
 		if r.Rng.Intn(3) == 0 {
@@ -166,8 +228,115 @@ func (r *Run) genPfx13(pool []pfx13) pfx13 {
 		if r.Rng.Intn(3) == 0 {
 			p.bits = r.Rng.Intn(129)
 		}
+		if r.Rng.Intn(4) == 0 {
+			p.bits = 128 // single address
+		}
 	}
 	return p
+}
+
+var paths13 = []string{"append", "text", "ip_set", "plugin"}
+
+func texts13(ps []pfx13) []string {
+	out := []string{}
+	for _, p := range ps {
+		out = append(out, p.text())
+	}
+	return out
+}
+
+// covered13 is the property's right-hand side: some listed prefix covers the address.
+func covered13(ps []pfx13, a addr13) bool {
+	for _, p := range ps {
+		if p.covers(a.v4, a.a) {
+			return true
+		}
+	}
+	return false
+}
+
+// load13 builds the set from the rules through one of the loaders:
+// Append, the list-file text loader, ip_set's inline `ips`, or the ip_set
+// plugin itself with some rules inline and the others in a list file.
+func (r *Run) load13(via string, ps []pfx13) (netlist.Matcher, error) {
+	l := netlist.NewList()
+	texts := texts13(ps)
+	switch via {
+	case "append":
+		for _, p := range ps {
+			l.Append(p.netip())
+		}
+	case "text":
+		var file strings.Builder
+		file.WriteString("# generated\n\n")
+		for i, s := range texts {
+			switch i % 4 {
+			case 0:
+				file.WriteString(s + "\n")
+			case 1:
+				file.WriteString("  " + s + "   # comment\n")
+			case 2:
+				file.WriteString(s + " trailing words\n\n")
+			default:
+				file.WriteString("\t" + s + "\r\n")
+			}
+		}
+		if err := netlist.LoadFromReader(l, strings.NewReader(file.String())); err != nil {
+			return nil, err
+		}
+	case "ip_set":
+		if err := ip_set.LoadFromIPs(texts, l); err != nil {
+			return nil, err
+		}
+	case "plugin":
+		var ips []string
+		var fl strings.Builder
+		for _, s := range texts {
+			if r.Rng.Intn(2) == 0 {
+				ips = append(ips, s)
+			} else {
+				fl.WriteString(s + "\n")
+			}
+		}
+		fn := filepath.Join(r.Dir, "c13-list.txt")
+		if err := os.WriteFile(fn, []byte(fl.String()), 0o644); err != nil {
+			fatal(err)
+		}
+		set, err := ip_set.NewIPSet(nil, &ip_set.Args{IPs: ips, Files: []string{fn}})
+		os.Remove(fn)
+		if err != nil {
+			return nil, err
+		}
+		return set.GetIPMatcher(), nil
+	}
+	l.Sort()
+	return l, nil
+}
+
+// shrink13 drops rules one by one as long as the answer for a still differs from the oracle.
+func (r *Run) shrink13(via string, ps []pfx13, a addr13) []pfx13 {
+	bad := func(qs []pfx13) bool {
+		for try := 0; try < 4; try++ { // the plugin loader splits the rules at random between ips and file
+			m, err := r.load13(via, qs)
+			if err == nil && m.Match(a.netip()) != covered13(qs, a) {
+				return true
+			}
+			if via != "plugin" {
+				break
+			}
+		}
+		return false
+	}
+	cur := append([]pfx13(nil), ps...)
+	for i := 0; i < len(cur); {
+		cand := append(append([]pfx13(nil), cur[:i]...), cur[i+1:]...)
+		if bad(cand) {
+			cur = cand
+		} else {
+			i++
+		}
+	}
+	return cur
 }
 
 func runC13(r *Run) {
@@ -236,85 +405,66 @@ func runC13(r *Run) {
 			as = as[:120]
 		}
 
-		// ---- load through one of three paths
-		l := netlist.NewList()
-		path := []string{"append", "text", "ip_set"}[r.Rng.Intn(3)]
-		var loadErr error
-		switch path {
-		case "append":
-			for _, p := range ps {
-				l.Append(p.netip())
-			}
-		case "text":
-			var sb strings.Builder
-			sb.WriteString("# generated\n\n")
-			for i, p := range ps {
-				s := p.netip().String()
-				if p.bits == p.netip().Addr().BitLen() && r.Rng.Intn(2) == 0 {
-					s = p.netip().Addr().String() // single address form
-				}
-				switch i % 4 {
-				case 0:
-					sb.WriteString(s + "\n")
-				case 1:
-					sb.WriteString("  " + s + "   # comment\n")
-				case 2:
-					sb.WriteString(s + " trailing words\n\n")
-				default:
-					sb.WriteString("\t" + s + "\r\n")
-				}
-			}
-			loadErr = netlist.LoadFromReader(l, strings.NewReader(sb.String()))
-		case "ip_set":
-			var ips []string
-			for _, p := range ps {
-				s := p.netip().String()
-				if p.bits == p.netip().Addr().BitLen() && r.Rng.Intn(2) == 0 {
-					s = p.netip().Addr().String()
-				}
-				ips = append(ips, s)
-			}
-			loadErr = ip_set.LoadFromIPs(ips, l)
-		}
-		if loadErr != nil {
-			r.Fail("a valid prefix list was rejected by the loader ("+path+")", map[string]any{"err": loadErr.Error()})
-			continue
-		}
-		l.Sort()
+		// ---- load the same rules through every loader; one of them (chosen at random) is the
+		// one whose answers are also compared with the model
+		path := paths13[r.Rng.Intn(len(paths13))]
 		var pops, aops []string
 		for _, p := range ps {
-			pops = append(pops, p.op())
-		}
-		var out strings.Builder
-		nontrivial := false
-		if l.Contains(netip.Addr{}) {
-			r.Fail("Contains(the zero netip.Addr, which is no address) = true", map[string]any{"prefixes": pops})
+			if path == "append" {
+				pops = append(pops, p.op())
+			} else {
+				pops = append(pops, p.lineOp())
+			}
 		}
 		for _, a := range as {
-			got := l.Contains(a.netip())
-			want := false
-			for _, p := range ps {
-				if p.covers(a.v4, a.a) {
-					want = true
-					break
-				}
-			}
-			if got {
-				out.WriteByte('1')
-			} else {
-				out.WriteByte('0')
-			}
 			aops = append(aops, a.op())
-			if want {
-				nontrivial = true
-			}
-			if got != want {
-				var pstr []string
-				for _, p := range ps {
-					pstr = append(pstr, p.netip().String())
+		}
+		want := make([]bool, len(as))
+		nontrivial := false
+		for k, a := range as {
+			want[k] = covered13(ps, a)
+			nontrivial = nontrivial || want[k]
+		}
+		var primaryOut string
+		primaryOK := true
+		for _, via := range paths13 {
+			m, loadErr := r.load13(via, ps)
+			if loadErr != nil {
+				r.Fail("a valid prefix list was rejected by the loader ("+via+")", map[string]any{"err": loadErr.Error(), "as_written": texts13(ps)})
+				if via == path {
+					primaryOK = false
 				}
-				r.Fail(fmt.Sprintf("Contains(%s) = %v but the loaded prefixes say %v", a.netip(), got, want), map[string]any{"prefixes_in_load_order": pstr, "address": a.netip().String(), "loaded_via": path})
+				continue
 			}
+			if m.Match(netip.Addr{}) {
+				r.Fail("Contains(the zero netip.Addr, which is no address) = true", map[string]any{"prefixes": pops, "loaded_via": via})
+			}
+			var out strings.Builder
+			reported := false
+			for k, a := range as {
+				got := m.Match(a.netip())
+				out.WriteString(b01(got))
+				if got != want[k] && !reported {
+					reported = true // one report per rule set and loader, on the smallest sub-list that still shows it
+					small := r.shrink13(via, ps, a)
+					var pstr []string
+					for _, p := range small {
+						pstr = append(pstr, p.netip().String())
+					}
+					rep := map[string]any{"prefixes_in_load_order": pstr, "address": a.netip().String(), "loaded_via": via, "shrunk_from_rules": len(ps)}
+					if via != "append" {
+						rep["as_written"] = texts13(small)
+					}
+					r.Fail(fmt.Sprintf("Contains(%s) = %v but the loaded prefixes say %v", a.netip(), got, want[k]), rep)
+				}
+			}
+			if via == path {
+				primaryOut = out.String()
+			}
+			r.Count("load:" + via)
+		}
+		if !primaryOK {
+			continue
 		}
 		ps1, as1 := strings.Join(pops, ","), strings.Join(aops, ",")
 		if ps1 == "" {
@@ -323,13 +473,22 @@ func runC13(r *Run) {
 		if as1 == "" {
 			as1 = "-"
 		}
-		r.Line("set "+ps1+" "+as1, out.String())
+		r.Line("set "+ps1+" "+as1, primaryOut)
 		r.Eval(ps1+"|"+as1, nontrivial && len(ps) > 1)
-		r.Count("load:" + path)
+		r.Count("model-line:" + path)
 		r.Count(fmt.Sprintf("order:%d", order))
 		if len(ps) >= 10 {
 			r.Count("big-set")
 		}
+		for _, p := range ps {
+			if !p.v4 && p.netip().Addr().Is4In6() {
+				if p.host && p.bits == 128 {
+					r.Count("rule:mapped-single-address-line")
+				} else {
+					r.Count("rule:mapped-cidr-line")
+				}
+			}
+		}
 	}
-	r.Finish("multisets of 0..50 prefixes (IPv4 /0../32, IPv6 /0../128, host bits set or not; half derived from earlier ones: duplicate, same base other length, nested, adjacent, IPv4-mapped twin), load order random / ascending / descending, loaded via Append, text loader or ip_set ips; addresses = first, last, just below, just above and the written base of every prefix in IPv6 and (when mapped) IPv4 notation + random; non-trivial = at least 2 prefixes and some address covered")
+	r.Finish("multisets of 0..50 prefixes (IPv4 /0../32, IPv6 /0../128, a quarter single addresses, host bits set or not; a quarter of the IPv4 ones written in IPv4-mapped form; half derived from earlier ones: duplicate, same base other length, nested, adjacent, IPv4-mapped twin), load order random / ascending / descending; every set is loaded via Append, the text loader, ip_set ips and the ip_set plugin (ips + a list file), each compared with the bit-level oracle, one of them (random) also with the model; rule lines are written with or without /len for single addresses and with 16-byte addresses spelled canonical / expanded / upper case / ::ffff:hex:hex / 0:0:0:0:0:ffff:a.b.c.d; addresses = first, last, just below, just above and the written base of every prefix in IPv6 and (when mapped) IPv4 notation + random; non-trivial = at least 2 prefixes and some address covered")
 }
